@@ -44,6 +44,10 @@ def try_compile(program: dict, form: str | None = None, **kw):
             q = q.program
         elif form == "dict":
             q = SchemaV1.model_validate(q.model_dump())
+        elif form == "rawdict":
+            q = q.model_dump()                   # a plain Python dict with the version/program wrapper
+        elif form == "rawprogram":
+            q = q.program.model_dump()           # … and without it
     except Exception as e:  # schema-invalid input: not bartiq's business
         return "schema", e
     if form in ("routine", "routine-twice"):
